@@ -245,7 +245,7 @@ func (c *Ctx) makeCall(x *ast.CallExpr, st *State) Val {
 		if isByte(u.Elem()) {
 			rg := c.newRegion(st, "make")
 			// make zeroes memory
-			c.assume(fmt.Sprintf("(forall ((k %s)) (! (= (select %s k) #x00) :pattern ((select %s k))))", is.smt(), st.heap[rg], st.heap[rg]))
+			c.contentFact(fmt.Sprintf("(forall ((k %s)) (! (= (select %s k) #x00) :pattern ((select %s k))))", is.smt(), st.heap[rg], st.heap[rg]))
 			return SliceV{Region: rg, Off: c.ilit(0), Len: n.T, Cap: cp.T, Nil: "false", Prov: "fresh"}
 		}
 		return ListV{Len: n.T, Elems: c.freshRaw("mk_elems", c.listArrSort(u.Elem())), Nil: "false", ElemT: u.Elem(), Prov: "fresh"}
@@ -290,7 +290,9 @@ func (c *Ctx) copyBytes(st *State, dv, sv SliceV, pos string) Val {
 	is := c.idx()
 	n := c.def("copied", is, fmt.Sprintf("(ite %s %s %s)", c.ltIdx(dv.Len, sv.Len), dv.Len, sv.Len))
 	if dv.Region == "" {
-		panic(unsupported{pos + ": copy into immutable bytes"})
+		// destination is a bytes element/field of the message held by value: its new content is not tracked
+		c.abstracted("copy into a bytes element of the message (content not tracked)")
+		return Scalar{n, is}
 	}
 	old := c.sliceArr(st, dv)
 	src := c.sliceArr(st, sv)
@@ -298,7 +300,7 @@ func (c *Ctx) copyBytes(st *State, dv, sv SliceV, pos string) Val {
 	k := "k"
 	inR := and(c.leIdx(dv.Off, k), c.ltIdx(k, c.addIdx(dv.Off, n)))
 	srcIdx := c.addIdx(sv.Off, c.subIdx(k, dv.Off))
-	c.assume(fmt.Sprintf("(forall ((k %s)) (! (= (select %s k) (ite %s (select %s %s) (select %s k))) :pattern ((select %s k))))", is.smt(), na, inR, src, srcIdx, old, na))
+	c.contentFact(fmt.Sprintf("(forall ((k %s)) (! (= (select %s k) (ite %s (select %s %s) (select %s k))) :pattern ((select %s k))))", is.smt(), na, inR, src, srcIdx, old, na))
 	st.heap[dv.Region] = na
 	c.stores = append(c.stores, StoreRec{Key: dv.Region, Ref: dv.Off, Guard: st.guard, Pos: pos})
 	return Scalar{n, is}
@@ -340,6 +342,7 @@ func (c *Ctx) appendCall(x *ast.CallExpr, st *State) Val {
 		el := b.Elems
 		for i, a := range x.Args[1:] {
 			v := c.eval(a, st)
+			c.noteElemStore(st, types.ExprString(x.Args[0]), v, c.pos(x.Pos()), "list element")
 			el = c.defRaw("E", c.listArrSort(b.ElemT), fmt.Sprintf("(store %s %s %s)", el, c.addIdx(b.Len, c.ilit(int64(i))), c.idOfValue(st, v)))
 		}
 		return ListV{Len: c.def("applen", is, c.addIdx(b.Len, c.ilit(int64(len(x.Args)-1)))), Elems: el, Nil: "false", ElemT: b.ElemT, Prov: b.Prov}
@@ -364,7 +367,7 @@ func (c *Ctx) appendFrame(st *State, rg string, b SliceV, n string) {
 	is := c.idx()
 	old := c.sliceArr(st, b)
 	na := st.heap[rg]
-	c.assume(fmt.Sprintf("(forall ((k %s)) (! (=> %s (= (select %s k) (select %s %s))) :pattern ((select %s k))))", is.smt(), and(c.leIdx(c.ilit(0), "k"), c.ltIdx("k", n)), na, old, c.addIdx(b.Off, "k"), na))
+	c.contentFact(fmt.Sprintf("(forall ((k %s)) (! (=> %s (= (select %s k) (select %s %s))) :pattern ((select %s k))))", is.smt(), and(c.leIdx(c.ilit(0), "k"), c.ltIdx("k", n)), na, old, c.addIdx(b.Off, "k"), na))
 }
 
 func (c *Ctx) appendBytes(st *State, b, s SliceV) Val {
@@ -375,7 +378,7 @@ func (c *Ctx) appendBytes(st *State, b, s SliceV) Val {
 	src := c.sliceArr(st, s)
 	na := st.heap[rg]
 	rngK := and(c.leIdx(b.Len, "k"), c.ltIdx("k", n))
-	c.assume(fmt.Sprintf("(forall ((k %s)) (! (=> %s (= (select %s k) (select %s %s))) :pattern ((select %s k))))", is.smt(), rngK, na, src, c.addIdx(s.Off, c.subIdx("k", b.Len)), na))
+	c.contentFact(fmt.Sprintf("(forall ((k %s)) (! (=> %s (= (select %s k) (select %s %s))) :pattern ((select %s k))))", is.smt(), rngK, na, src, c.addIdx(s.Off, c.subIdx("k", b.Len)), na))
 	cp := c.freshLen("appcap")
 	c.assume(c.leIdx(n, cp))
 	nl := c.defRaw("appnil", "Bool", and(b.Nil, "(= "+s.Len+" "+c.ilit(0)+")"))
@@ -449,7 +452,7 @@ func (c *Ctx) callBySpec(spec *FuncSpec, fn *types.Func, x *ast.CallExpr, st *St
 	}
 	env = &SpecEnv{c: c, st: st, entry: pre, binds: binds, results: results, assume: true}
 	for _, en := range spec.Ensures {
-		c.assume(implies(st.guard, c.specBool(en, env)))
+		c.assumeSpec(st.guard, en, env)
 	}
 	c.usedSpecs[specKey(spec.Pkg, spec.Name)] = true
 	return results
@@ -757,4 +760,22 @@ func init() {
 func retag(v Val, w int) Val {
 	s := v.(Scalar)
 	return Scalar{s.T, Sort{K: "bv", W: w}}
+}
+
+// contentFact: quantified facts about byte contents (append/copy/make). They are only emitted for units that state
+// something about contents; a quantifier in a bit-vector query takes the solver off its fast path.
+func (c *Ctx) contentFact(t string) {
+	if c.content {
+		c.assume(t)
+	}
+}
+
+// assumeSpec assumes a contract clause under a guard, evaluated without auxiliary definitions so that the assumption
+// mentions the symbols it constrains directly (this is what slicing keys on).
+func (c *Ctx) assumeSpec(guard string, cl *Clause, env *SpecEnv) {
+	save := c.noDef
+	c.noDef = true
+	t := c.specBool(cl, env)
+	c.noDef = save
+	c.assume(implies(guard, t))
 }
